@@ -50,6 +50,12 @@ class _SQLLineageConfigLoader:
             super().__setattr__(key, value)
 
     def __call__(self, *args, **kwargs):
+        # reject before storing anything, so that a refused override leaves no trace behind
+        if self.get_ident() in self._thread_in_context_manager:
+            raise ConfigException("SQLLineageConfig context manager is not reentrant")
+        for key in kwargs:
+            if key not in self.config.keys():
+                raise ConfigException(f"Invalid config key: {key}")
         if self.get_ident() not in self._thread_config.keys():
             self._thread_config[self.get_ident()] = {}
         for key, value in kwargs.items():
